@@ -126,7 +126,7 @@ theorem interp_good (reg : Registry) : ∀ f : Nat,
         · intro re hre s''
           cases hp : (loopParts child).2 with
           | none => simp [hp] at hre
-          | some e => simp [hp] at hre; subst hre; exact elseRun_goodL _ (fun _ => ihS _ _) _ _
+          | some e => simp [hp] at hre; subst hre; exact elseRun_goodL _ (elseSeq_good _ (by intro r hr; simp only [List.mem_map] at hr; obtain ⟨n, _, rfl⟩ := hr; exact fun s => ihN n s)) _ _
       | rloop ls child =>
         rw [writeNode]
         simp only
@@ -137,7 +137,7 @@ theorem interp_good (reg : Registry) : ∀ f : Nat,
         · intro re hre s''
           cases hp : (loopParts child).2 with
           | none => simp [hp] at hre
-          | some e => simp [hp] at hre; subst hre; exact elseRun_goodL _ (fun _ => ihS _ _) _ _
+          | some e => simp [hp] at hre; subst hre; exact elseRun_goodL _ (elseSeq_good _ (by intro r hr; simp only [List.mem_map] at hr; obtain ⟨n, _, rfl⟩ := hr; exact fun s => ihN n s)) _ _
       | brk d => rw [writeNode]; exact good_ctx_only
       | lbrk d => rw [writeNode]; exact good_ctx_only
       | cont => rw [writeNode]; exact good_of_same_writer rfl
